@@ -9,8 +9,13 @@ where
     T: Clone + Copy,
 {
     fn from(sets: &'a Vec<Vec<T>>) -> Self {
-        let final_pos: Vec<usize> = sets.iter().map(|v| v.len() - 1).collect();
-        let pos: Option<Vec<usize>> = Some(vec![0; sets.len()]);
+        let final_pos: Vec<usize> = sets.iter().map(|v| v.len().saturating_sub(1)).collect();
+        // the product with an empty set has no combination at all
+        let pos: Option<Vec<usize>> = if sets.iter().any(|v| v.is_empty()) {
+            None
+        } else {
+            Some(vec![0; sets.len()])
+        };
         MultiSet {
             sets,
             pos,
@@ -36,7 +41,8 @@ where
                     .collect();
                 let mut next_pos = position.to_vec();
                 // tick through full table of index combinations
-                let mut finished = false;
+                // the product of no sets is the single empty combination
+                let mut finished = self.sets.is_empty();
                 for idx in 0..self.sets.len() {
                     if next_pos[idx] < self.final_pos[idx] {
                         next_pos[idx] += 1;
